@@ -265,6 +265,65 @@ class EvaluatorStepCase(Case):
         return props
 
 
+class ParallelBudgetCase(Case):
+    """A population method asks for batches: the function budget may be overshot by at most one batch, the run stops at
+    the next request once the budget is used up, and the code is MAX_FUNCTIONS_REACHED exactly then."""
+
+    family = "exit-code/optimizer-step/parallel"
+
+    def __init__(self, cid, batches=(2, 2, 1, 2)):
+        self.id, self.batches = cid, tuple(batches)
+        self.cfg0 = ens.ensemble_config(N=2, R=1, P=1, x0=[0.25, -0.5], lower=-10.0, upper=10.0,
+                                        extra={"optimizer": {"method": "symstub/x", "parallel": True, "max_functions": 3}})
+
+    def describe(self):
+        return f"parallel scripted algorithm, batches of {self.batches} vectors, symbolic max_functions"
+
+    def inputs(self, env):
+        return {"maxf": env.integer("maxf", 1, sum(self.batches) + 1)}
+
+    def run(self, env, inp):
+        cfg = clone_config(self.cfg0)
+        inject(cfg.optimizer, max_functions=env.num(inp["maxf"]))
+        rec = Recorder()
+        ev = FlagEvaluator(env, {})
+        plan, _ = make_plan(ev, rec)
+        served = []
+
+        def script(opt, x0):
+            for b in self.batches:
+                x = np.array([[0.125 * (i + 1), -0.5] for i in range(b)]) if b > 1 else np.array([0.5, 0.5])
+                opt.callback(env.const(x), return_functions=True, return_gradients=False)
+                served.append(b)
+
+        ens.set_script(script, parallel=True)
+        step = plan.add_step("optimizer")
+        code = plan.run_step(step, config=cfg)
+        rows = sum(int(np.shape(c.realizations)[0]) for c in ev.calls)
+        return {"code": code, "served": list(served), "rows": rows}
+
+    def props(self, env, inp, oc):
+        from ropt.enums import OptimizerExitCode as X
+        if not oc.ok:
+            return [("no_internal_exception:" + type(oc.exc).__name__, SB(False))]
+        o = oc.value
+        maxf = inp["maxf"]._real() if hasattr(inp["maxf"], "_real") else inp["maxf"]
+        nserved, total = len(o["served"]), sum(o["served"])
+        props = [("evaluated_vectors_are_those_of_the_served_requests", SB(o["rows"] == total))]
+        before_last = sum(o["served"][:-1]) if nserved else 0
+        # every served request started below the budget; the overshoot is less than its batch
+        props.append(("every_served_request_started_within_budget", SB(True) if nserved == 0 else maxf > before_last))
+        if o["code"] == X.MAX_FUNCTIONS_REACHED:
+            props.append(("stopped_only_when_budget_used_up", And(SB(nserved < len(self.batches)), maxf <= total)))
+        else:
+            props.append(("finished_only_when_every_request_was_within_budget",
+                          And(SB(o["code"] == X.OPTIMIZER_STEP_FINISHED and nserved == len(self.batches)), maxf > before_last)))
+        return props
+
+    def observe(self, env, inp, oc):
+        return {}
+
+
 def build_cases(tier):
     cases = []
     k = 0
@@ -316,6 +375,8 @@ def build_cases(tier):
     add(script=S2, rmin=1, merge=True, P=2, pmin=1)
     add(EvaluatorStepCase, rmin=2, C=2, nan_col=2)
     add(EvaluatorStepCase, rmin=0, C=2, R=3, nan_col=1)
+    add(ParallelBudgetCase)
+    add(ParallelBudgetCase, batches=(3, 1, 3))
     if tier == "thorough":
         for rmin in (0, 1, 2, 3):
             add(script=S1, rmin=rmin, R=3, P=2, pmin=2)
@@ -327,7 +388,7 @@ def build_cases(tier):
 
 
 META = dict(
-    bounds={"quick": "runs of <=3 evaluations (functions / gradient / both) with R=2, P<=2; every failure flag symbolic; max_functions symbolic in [1, n+1]; all four filter kinds, both estimators, realization_min_success in {0,1,2}; evaluator raising at each call; evaluator step with 1-2 vectors",
+    bounds={"quick": "runs of <=3 evaluations (functions / gradient / both) with R=2, P<=2; every failure flag symbolic; max_functions symbolic in [1, n+1]; all four filter kinds, both estimators, realization_min_success in {0,1,2}; evaluator raising at each call; evaluator step with 1-2 vectors; a parallel scripted algorithm asking for batches of 1-3 vectors under a symbolic max_functions; failures that show in one constraint column only; merged estimation",
             "thorough": "R=3, 4-step scripts, filters combined with max_functions",
             "outside": "request sequences of real SciPy algorithms and their NaN handling; longer runs"},
     stubs=["optimizer plug-in `symstub` (scripted requests; allow_nan selectable)", "sampler plug-in `stub`", "evaluator: NaN where a flag holds; may raise its own exception at a given call",
